@@ -1,6 +1,7 @@
 """C10 - retries: at most r+1 attempts, only after timeouts, same result."""
 import itertools
 from valve_common import *
+from quake_common import quake_specs, quake_case
 
 ID = "C10"
 PROPS_FILE = "C10"
@@ -63,6 +64,34 @@ def gen_cases(tier, rng):
                                   "hex": assemble(with_ts(full["settings"], ts), evs, full["bz"], fails),
                                   "meta": {"stream": "valve-faults", "expected": exp, "vec": vec, "r": r, "unit": unit, "attempts": made,
                                            "events": [None if e is None else e.hex() for e in evs], "tags": {"e": full["tags"]["e"]}}})
+    # Quake: one request unit
+    qs = quake_specs([(rng.next() >> 1, 1 + (i % 3)) for i in range(9 if tier == "quick" else 60)])
+    for q in qs:
+        if not q["expected"].startswith("Some("):
+            continue
+        ok = "Ok(" + q["expected"][5:-1] + ")"
+        for r in range(4):
+            for j in range(r + 2):
+                for tk in ("silent", "sendfail", "mixed"):
+                    pre = [("silent" if (i % 2 == 0) else "sendfail") if tk == "mixed" else tk for i in range(j)]
+                    for final in (["valid", "malformed"] if j <= r else [None]):
+                        vec = pre + ([final] if final else [])
+                        evs, fails, sends = [], [], 0
+                        for a in vec:
+                            if a == "silent":
+                                evs.append(None)
+                            elif a == "sendfail":
+                                fails.append(sends)
+                            elif a == "malformed":
+                                evs.append(b"\xff\xff")
+                            else:
+                                evs.append(q["dg"])
+                            sends += 1
+                        o, made, last = unit_outcome(vec, r)
+                        exp = ok if o == "ok" else ("Err(PacketUnderflow)" if o == "malformed" else ("Err(PacketSend)" if last == "sendfail" else "Err(PacketReceive)"))
+                        cases.append({"id": "qfault/%d/r%d/%s" % (q["seed"], r, "-".join(vec)),
+                                      "hex": quake_case(27960, q["ver"], {"retries": r}, evs, fails),
+                                      "meta": {"stream": "quake-faults", "expected": exp, "vec": vec, "r": r, "unit": 0, "attempts": made, "quake": True}})
     return cases
 
 
@@ -73,6 +102,11 @@ def oracle(case, impl, side):
         return ("panic", "panicked: " + side[:200])
     if res != m["expected"]:
         return ("retry-result", "fault vector %s at unit %d with r=%d: got %s expected %s" % (m["vec"], m["unit"], m["r"], res[:200], m["expected"][:200]))
+    if m.get("quake"):
+        n = sum(1 for t in trace.split(";") if t.startswith("S"))
+        if n != m["attempts"] or n > m["r"] + 1:
+            return ("retry-attempts", "quake fault vector %s with r=%d: %d attempts, expected %d" % (m["vec"], m["r"], n, m["attempts"]))
+        return None
     n = count_attempts(m["tags"], [None if e is None else bytes.fromhex(e) for e in m["events"]], trace, KINDS[m["unit"]])
     if n != m["attempts"] or n > m["r"] + 1:
         return ("retry-attempts", "fault vector %s at unit %d with r=%d: %d attempts, expected %d" % (m["vec"], m["unit"], m["r"], n, m["attempts"]))
